@@ -88,6 +88,7 @@ VARIANTS = {
         fire('values-in-raw-order', D, 'Dict.values', 'return self.sym_values()', 'return dict.values(self)', 'C02.f', 'Dict.values'),
         fire('sym-keys-yields-twice', D, 'Dict.sym_keys', 'traversed.add(key_spec.text)', 'pass', 'C02.f', 'Dict.sym_keys'),
         silent('sym-keys-rename-set', D, 'Dict.sym_keys', 'traversed', 'done', count=0),
+        fire('setdefault-returns-argument', D, 'Dict.setdefault', 'value = self.sym_getattr(key, default)', 'value = default', 'C02.d', 'Dict.setdefault'),
         silent('slice-param-renamed', L, 'List._parse_slice', 'index', 'slc', count=0),
         silent('rename-lambda-var', L, 'List._sym_rebind', 'key=lambda x: x[0]', 'key=lambda kv: kv[0]'),
     ],
